@@ -559,9 +559,36 @@ func (g *G) emptyIdScript(t *tenant) {
 	}
 }
 
+// moduleOwnerScript: an NFT that belongs to a module account (anybody can transfer an NFT there). A payout must not put coins into a
+// module account behind the module's accounting, and must not get stuck on it either.
+func (g *G) moduleOwnerScript(t *tenant) {
+	if t.method != "native" {
+		return
+	}
+	admin := t.admins[0]
+	mod := rng.Pick(g.r, []string{"mdistr", "mdistr", "mpool", "mcollector"})
+	g.emit("setowner %s %s %s", e(contracts[1]), e(tokens[2]), mod)
+	g.emit("fund %s 1000 %s", admin, e(t.denom))
+	g.emit("deposit %s %d 300 %s", admin, t.id, e(t.denom))
+	req := fmt.Sprintf("m%d", t.nreq)
+	t.nreq++
+	g.emit("record %s %d %s 9 %s %s %s %s", admin, t.id, e(req), e(t.denom), e(world.ThisChain), e(contracts[1]), e(tokens[2]))
+	t.pending = append(t.pending, req)
+	// a second record behind it, for an ordinary owner: it must not be held up
+	g.emit("setowner %s %s %s", e(contracts[0]), e(tokens[0]), accs[7])
+	req2 := fmt.Sprintf("m%d", t.nreq)
+	t.nreq++
+	g.emit("record %s %d %s 5 %s %s %s %s", admin, t.id, e(req2), e(t.denom), e(world.ThisChain), e(contracts[0]), e(tokens[0]))
+	t.pending = append(t.pending, req2)
+}
+
 func (g *G) adminOp() {
 	r := g.r
 	t := g.pickTenant()
+	if !g.p.Isolate && r.P(1, 16) {
+		g.moduleOwnerScript(t)
+		return
+	}
 	if !g.p.Isolate && r.P(1, 8) {
 		g.rejectedTx(t)
 		return
